@@ -249,6 +249,16 @@ cdef RadialSolverSolution cf_radial_solver(
     if total_slices <= (3 * num_layers):
         raise AttributeError('Radial solver requires at least 3 radial slices per layer (ideally >= 10 per).')
 
+    # Ensure `solve_for` can be parsed before any array is modified in place: an exception raised while it is parsed
+    #  below (empty tuple, non-string entry) would otherwise leave the caller's arrays non-dimensionalized.
+    cdef object solver_obj
+    if solve_for is not None:
+        if len(solve_for) == 0:
+            raise AttributeError('`solve_for` must request at least one solver (tidal, loading, free).')
+        for solver_obj in solve_for:
+            if not isinstance(solver_obj, str):
+                raise TypeError('`solve_for` entries must be strings (tidal, loading, free).')
+
     # Non-dimensionalize inputs
     cdef double G_to_use = NAN
     cdef double radius_planet_to_use = NAN
